@@ -20,6 +20,9 @@ modes
                                                        ["p", i]  parse(sources[i]), the Program is kept      (no text)
                                                        ["e", i]  emit(the Program kept for i)  - may be repeated: the same
                                                                  Program object is emitted again
+                                                       ["ti", i, n]  emit(parse(sources[i])) ABORTED at the n-th function call inside parser.py /
+                                                                 emitter.py: a BaseException (like KeyboardInterrupt) is raised there by a trace
+                                                                 function; "calls" = number of such calls seen (n = 0: count only, nothing raised)
                                                        ["reset"] every Reduino module is dropped from sys.modules and imported
                                                                  again (a stand-in for a fresh interpreter; no text)
 
@@ -28,6 +31,15 @@ modes
                                                        ["dur", indent, var, value]  _emit_duration_ms(indent, var, value)
                                                        ["fmt", value]               _format_float(value)
                                                      value: ["i", n] int | ["f", "text"] float | ["b", bool] | ["s", text] str
+
+  reemit     {"sources": [...], "other": src}       per source, in this one process:  p = parse(src); emit(p); emit(p); emit(parse(other));
+                                                     emit(p); emit(parse(src))  -> the five sha256 (+ texts of those that differ from the first),
+                                                     the IR node classes of p, the objects inside p that are not plain data (generators,
+                                                     iterators, functions ...: "opaque"), and whether a deep snapshot of p taken before the first
+                                                     emit() differs from one taken after it ("mutated": emit() changed its argument)
+  outcomes   {"sources": [...], "ops": [[op, i], ...], "texts": bool}
+                                                     like ops; "t" results additionally carry "fns" (the user-function definitions of the text:
+                                                     [return type, name, parameter list]) and "vars" (global declarations {name: type})
 
 Every mode accepts "adv": key.  Then the name `set` in the namespaces of parser.py and emitter.py is bound to
 a subclass of set whose iteration order is dictated by the key ("asc": sorted, "desc": reverse sorted, anything
@@ -84,6 +96,30 @@ def guarded(fn, texts, per=20):
         signal.alarm(0)
 
 
+class _Injected(BaseException):
+    """stands for an asynchronous abort of a transpilation (KeyboardInterrupt, MemoryError ...)"""
+
+
+def interrupted(src, n, texts):
+    import Reduino.transpile.emitter as E
+    files = {P.__file__, E.__file__}
+    seen = [0]
+
+    def tracer(frame, event, arg):
+        if event == "call" and frame.f_code.co_filename in files:
+            seen[0] += 1
+            if n and seen[0] == n:
+                raise _Injected()
+        return None
+    sys.settrace(tracer)
+    try:
+        r = guarded(lambda: emit(parse(src)), texts)
+    finally:
+        sys.settrace(None)
+    r["calls"] = seen[0]
+    return r
+
+
 def run_ops(srcs, ops, texts):
     kept = {}
     failed = {}
@@ -97,6 +133,8 @@ def run_ops(srcs, ops, texts):
             out.append({"ok": True, "sha": None})
         elif k == "t":
             out.append(guarded(lambda: emit(parse(srcs[op[1]])), texts))
+        elif k == "ti":
+            out.append(interrupted(srcs[op[1]], op[2], texts))
         elif k == "p":
             def do_parse(i=op[1]):
                 kept[i] = parse(srcs[i])
@@ -116,6 +154,112 @@ def run_ops(srcs, ops, texts):
                 out.append(guarded(lambda: emit(kept[op[1]]), texts))
         else:
             raise SystemExit("unknown op " + str(op))
+    return out
+
+
+PLAIN = (str, int, float, bool, type(None), bytes)
+
+
+def snapshot(obj, path="program", opaque=None, classes=None, depth=0):
+    """a deep, order-preserving description of a Program made of plain data only; anything that is not a dataclass / list / tuple /
+    dict / set / scalar is described by its type name and its path is recorded in `opaque`"""
+    import dataclasses
+    if depth > 200:
+        return "<deep>"
+    if isinstance(obj, PLAIN):
+        return [type(obj).__name__, repr(obj)]
+    if dataclasses.is_dataclass(obj) and not isinstance(obj, type):
+        if classes is not None:
+            classes.add(type(obj).__name__)
+        return [type(obj).__name__, [[f.name, snapshot(getattr(obj, f.name), f"{path}.{f.name}", opaque, classes, depth + 1)]
+                                     for f in dataclasses.fields(obj)]]
+    if isinstance(obj, (list, tuple)):
+        return [type(obj).__name__, [snapshot(x, f"{path}[{i}]", opaque, classes, depth + 1) for i, x in enumerate(obj)]]
+    if isinstance(obj, dict):
+        return ["dict", [[snapshot(k, path + ".key", opaque, classes, depth + 1), snapshot(v, f"{path}[{k!r}]", opaque, classes, depth + 1)]
+                         for k, v in obj.items()]]
+    if isinstance(obj, (set, frozenset)):
+        return [type(obj).__name__, sorted(json.dumps(snapshot(x, path + ".elem", opaque, classes, depth + 1)) for x in obj)]
+    if opaque is not None:
+        opaque.append([path, type(obj).__name__])
+    return ["opaque", type(obj).__name__]
+
+
+def run_reemit(srcs, other):
+    out = []
+    for src in srcs:
+        rec = {"shas": [], "steps": ["emit(p)", "emit(p) again", "emit(p) after emit(parse(other))", "emit(parse(src)) again",
+                                    "emit(p2), p2 = parse(src) made before the first emit()"]}
+        signal.alarm(30)
+        try:
+            try:
+                p = parse(src)
+            except _Timeout:
+                raise
+            except BaseException as e:  # noqa
+                rec.update({"ok": False, "exc": type(e).__name__})
+                out.append(rec)
+                continue
+            p2 = parse(src)
+            opaque, classes = [], set()
+            s0 = json.dumps(snapshot(p, "program", opaque, classes))
+            texts = []
+
+            def step(fn):
+                try:
+                    t = fn()
+                    texts.append(t)
+                    rec["shas"].append(hashlib.sha256(t.encode("utf-8")).hexdigest())
+                except _Timeout:
+                    raise
+                except BaseException as e:  # noqa
+                    texts.append(None)
+                    rec["shas"].append("exc:" + type(e).__name__)
+            step(lambda: emit(p))
+            s1 = json.dumps(snapshot(p))
+            step(lambda: emit(p))
+            try:
+                emit(parse(other))
+            except _Timeout:
+                raise
+            except BaseException:  # noqa
+                pass
+            step(lambda: emit(p))
+            step(lambda: emit(parse(src)))
+            step(lambda: emit(p2))
+            rec.update({"ok": True, "opaque": opaque[:8], "classes": sorted(classes), "mutated": s0 != s1})
+            if len(set(rec["shas"])) > 1:
+                rec["texts"] = texts
+        except _Timeout:
+            rec.update({"ok": False, "exc": "Timeout"})
+        finally:
+            signal.alarm(0)
+        out.append(rec)
+    return out
+
+
+def text_facts(cpp):
+    """user-function definitions and global declarations read off the emitted text"""
+    import re
+    fns, vars_ = [], {}
+    for ln in cpp.splitlines():
+        m = re.match(r"^(\w[\w<>]*) (\w+)\((.*)\) \{$", ln)
+        if m and m.group(2) not in ("setup", "loop") and not m.group(2).startswith("__redu"):
+            fns.append([m.group(1), m.group(2), m.group(3)])
+            continue
+        m = re.match(r"^(int|float|bool|String) (\w+) = .*;$", ln)
+        if m:
+            vars_[m.group(2)] = m.group(1)
+    return fns, vars_
+
+
+def run_outcomes(srcs, ops, texts):
+    out = run_ops(srcs, ops, True)
+    for r in out:
+        if r.get("ok") and r.get("cpp") is not None:
+            r["fns"], r["vars"] = text_facts(r["cpp"])
+            if not texts:
+                del r["cpp"]
     return out
 
 
@@ -340,6 +484,10 @@ def main():
         out["results"] = run_threads(req["sources"], req.get("threads", 4), req.get("rounds", 2))
     elif mode == "ops":
         out["results"] = run_ops(req["sources"], req["ops"], req.get("texts", False))
+    elif mode == "reemit":
+        out["results"] = run_reemit(req["sources"], req.get("other", "x = 1\n"))
+    elif mode == "outcomes":
+        out["results"] = run_outcomes(req["sources"], req["ops"], req.get("texts", False))
     elif mode == "promote":
         out["results"] = [promote_case(c) for c in req["cases"]]
     elif mode == "helpers":
